@@ -515,7 +515,7 @@ def _rule_trichotomy(ctx: Ctx, L: LoopInfo) -> None:
     ctx.stats["loop_paths_enumerated"] = ctx.stats.get("loop_paths_enumerated", 0) + len(paths)
 
 
-def _rule_horizon(ctx: Ctx, L: LoopInfo) -> None:
+def _rule_horizon(ctx: Ctx, L: LoopInfo, rule: str = "C01-7") -> None:
     """C01-7: no event beyond the horizon is delivered.  Accepts either a test of the heap head before pop or
     a test of the popped event before invoke, against the loop's horizon (end_time / end_time_ns)."""
     fn, ff, ev = L.fn, L.ff, L.ev
@@ -559,7 +559,7 @@ def _rule_horizon(ctx: Ctx, L: LoopInfo) -> None:
         if op in ("le", "lt") and b in horizons and subject_ok(a, L.pop_node) and "peek" in a or (op in ("le", "lt") and b in horizons and "_heap[0]" in a):
             at_pop = True
     ok = at_invoke or at_pop
-    ctx.ob("C01-7", "G1", fn, norm_stmt(L.invoke_node.ast) + " [horizon]", ok,
+    ctx.ob(rule, "G1", fn, norm_stmt(L.invoke_node.ast) + " [horizon]", ok,
            f"`{ev}.invoke()` must be dominated by a comparison of *that event's* time (or the heap head before pop) with the "
            f"horizon {sorted(horizons)[:4]}… whose failing edge does not reach invoke; "
            + ("holds" if ok else f"FAILS — the loop condition `{unparse(L.while_stmt.test)}` tests the previously processed time, so one "
